@@ -105,7 +105,7 @@ def make_scenarios(rng, tier, focus, count):
                 r = rng.random()
                 ident = RC.ident_of(pkgs, t)
                 if r < 0.5:
-                    codes[ident] = rng.choice([1, 2, 127, 255])
+                    codes[ident] = rng.choice([1, 2, 127, 255, 128, 129, 126, 64, 254])     # incl. the shell's 128+N boundary
                 elif r < 0.75:
                     codes[ident] = {"signal": rng.choice([9, 15, 11, 2])}
                 else:
@@ -134,7 +134,7 @@ def make_scenarios(rng, tier, focus, count):
             codes, fl = {}, []
             failing = rng.sample(range(1, w + 1), rng.choice([1, 1, 2]) if w > 1 else 1)
             for t in failing:
-                codes[RC.ident_of(pkgs, t)] = rng.choice([1, 2, 255, {"signal": 9}])
+                codes[RC.ident_of(pkgs, t)] = rng.choice([1, 2, 255, 128, {"signal": 9}])
             sched = {"seed": rng.randrange(1 << 30), "codes": codes, "fail_launch": [], "p_exit": 0.9,
                      "p_deliver": rng.choice([0.05, 0.1, 0.2]), "allow_steal": focus == "reap", "allow_late": focus == "reap"}
             stop = False
@@ -191,6 +191,10 @@ def make_scenarios(rng, tier, focus, count):
                 sched["fail_launch"] = [RC.ident_of(pkgs, w + 2)]
         scn = RC.scenario_from_graph(g, placement=k, jobs=jobs, stop=stop, sched=sched)
         scn["_n"] = n
+        if focus == "slots" and k % 4 == 2:
+            # nested use: cond's own environment already carries an outer task's COND_* variables (the slot value may coincide
+            # with one this run hands out)
+            scn["ambient"] = {"COND_SLOT": str(rng.randrange(0, max(1, jobs))), "COND_NAME": "outer"}
         if focus == "deps" and k % 10 == 7:
             # one dependency listed twice under two spellings (":x" and "//pkg:x", "//pkg/:x"): such a definition must be
             # rejected - and if it is ever accepted, the dependency must still run once and never next to its dependent
